@@ -126,6 +126,18 @@ def dot_side_ok(c):
     return max(b + e for b, e in prods) - min(e for _, e in prods) < p
 
 
+def _iroot(a, n):
+    """floor of the n-th root of a natural number"""
+    if a < 2:
+        return a
+    x = 1 << ((a.bit_length() + n - 1) // n)
+    while True:
+        y = ((n - 1) * x + a // x ** (n - 1)) // n
+        if y >= x:
+            return x
+        x = y
+
+
 def group_c03(g, n):
     r = g.r
     out = []
@@ -135,6 +147,22 @@ def group_c03(g, n):
         x = g.mpf(p, special=0.04)
         s, m, e, bc = x
         c = r.random()
+        if r.random() < 0.3:
+            # hard cases: x is a many-bit n-th root of a p-bit number, so x^n lies a hair's breadth from a
+            # representable value and only a consistently directed evaluation lands on the right side
+            nn = r.choice([2, 3, 3, 5, 7, 9, 12, 17, 33])
+            p = min(p, 400)
+            M = g.mant(r.randint(max(1, p - 3), p), p) | 1
+            xb = max(p + 4 * nn.bit_length() + r.randint(6, 40), 1000 // nn + 2)
+            if xb * nn > 14000:
+                continue
+            k = xb - (M.bit_length() + nn - 1) // nn
+            root = _iroot(M << (nn * k), nn) + r.choice([0, 1])
+            x = gen.mk(r.choice([1, -1]) * root, r.randint(-20, 20) - k)
+            if r.random() < 0.15:
+                nn = -nn
+            out.append(case("pow_int", "libmp", [A_f(x), A_z(nn)], p, rnd))
+            continue
         if c < 0.5:
             nn = r.randint(-40, 40)
         elif c < 0.8:
